@@ -591,3 +591,32 @@ Theorem c12_reentry_example :
   snd (pro_run t 1 [true] d) = Some true /\ fst (pro_run t 1 [true] d) (Tmp 1) = None /\
   fst (pro_run t 1 [] d) (File 0) = d_old (File 0).
 Proof. exact reentry_run_example. Qed.
+
+(** * The property for the generated object (round 5: consolidation)
+
+    Every hypothesis is a boolean computed by the kernel on objects the translator generates from today's source — [o]
+    (aw_obj: the __exit__ program, the attribute facts, the open modes), [p] (aw_entry_prog: the statements of
+    make_tempfile before mkdir), [n] (aw_nclasses) — and discharged on every run as the instance obligation
+    [c12_property_of_generated_object_hypotheses]; what remains is [In r (run_classes n)] (the class of exception the
+    refused operations of the run raise), [dest s1 <> dest s2] inside [two_writer_property] (the property speaks of
+    writers to different files) and [hstates_ok] (the attribute states of a history keep the constants).  Conclusion, for
+    the exit protocol [x] of the object under run class [r]: [two_writer_property x] = the conclusion of [c12_property]
+    (old or complete new at every point of every schedule, raised iff not committed and then the old contents, an
+    abandoned body never commits, no temp file after a handled failure, isolation of the two writers); every history of
+    complete uses of the object is good use by use (when the uncollapsed protocol is in the family: no retry loop); and
+    entering the object while it still holds a temp file gives that file up and is followed by a good use. *)
+Theorem c12_property_of_generated_object : forall n o p r,
+  all_classes n o (fun o' => retry_ok (obj_proto o') && proto_outcome_ok (obj_proto o') && reuse_indep o') = true ->
+  reentry_ok o p = true -> In r (run_classes n) ->
+  let o' := with_class r o in
+  let x := obj_proto o' in
+  two_writer_property x /\
+  (proto_ok x = true -> forall h, hstates_ok o' h -> forall d, hist_good o' h d) /\
+  (forall a, In a (holding o) -> reentry_property x (reentry_tree o p a)).
+Proof. exact generated_object_property. Qed.
+
+Theorem c12_generated_object_hypotheses_hold :
+  all_classes 8 obj_fixed (fun o' => retry_ok (obj_proto o') && proto_outcome_ok (obj_proto o') && reuse_indep o') = true /\
+  reentry_ok obj_fixed prologue_r5 = true /\ reentry_ok obj_fixed prologue_r4 = true /\
+  all_classes 8 obj_fixed (fun o' => proto_ok (obj_proto o')) = true /\ holding obj_fixed <> [].
+Proof. exact generated_object_hypotheses_hold. Qed.
